@@ -45,7 +45,14 @@ RULE = (
     "(T<=40 quick / <=64 thorough) through the exact forward-backward model, long traces (T<=5000) through "
     "Baum-Welch (manual E/M steps and the public constructor with tol in {0, 1e-3, 0.5, 5}: n_iter, converged and "
     "fit_info.log_likelihood must match the E/M sequence) for normalisation and EM monotonicity with the final "
-    "model's Viterbi path scored exactly by the Lean model, long label sequences over <=5 labels (negative labels "
+    "model's Viterbi path scored exactly by the Lean model; trained HiddenMarkovModel OBJECTS: for every small-scope model "
+    "and every T>=2 (1-3 iterations, tol 0), for 40 / 400 short and medium traces (T<=40 / <=64, overlapping states, in a "
+    "third of them the first observation between two state means, 1-5 iterations, tol in {0, 1e-3, 0.5}) and for the long "
+    "traces, fit_info.log_likelihood has to be the exact log-likelihood of the parameters the SAME object reports "
+    "(initial_state_probability, transition_matrix, means, variances): sum over ALL K^T paths where K^T<=2200, the exact "
+    "Lean forward-backward model for T<=20, an independent log-space forward recursion beyond; read when the constructor "
+    "returns and again after state_path and after the object served as initial_guess of one more Baum-Welch iteration, "
+    "which must itself be exact, normalised and not below; long label sequences over <=5 labels (negative labels "
     "included) + malformed stream (empty trace, NaN labels, wrong initial_guess type, state-count mismatch). "
     "Non-trivial: decoded path with >=2 states; forward-backward with K>=2 and T>=2; EM with K>=2 and >=2 "
     "iterations; label sequence with >=2 runs; call sequence with >=2 calls and a trace with >=2 runs; malformed input "
@@ -114,6 +121,16 @@ def stub_hmm(model):
     h._model = model
     h._fit_info = None
     return h
+
+
+def public_params(h):
+    """what a HiddenMarkovModel reports about itself through its public properties, read at this moment (copies, as bit
+    patterns): fit_info.log_likelihood, initial_state_probability, transition_matrix, means, variances (as 1/variance)"""
+    with np.errstate(all="ignore"):
+        tau = 1.0 / np.asarray(h.variances, dtype=float)
+    return {"ll": enc_float(h.fit_info.log_likelihood), "pi": fl(np.array(h.initial_state_probability, dtype=float)),
+            "A": [fl(r) for r in np.atleast_2d(np.array(h.transition_matrix, dtype=float))], "mu": fl(np.array(h.means, dtype=float)),
+            "tau": fl(tau)}
 
 
 def trace_of(data, dt=1000):
@@ -307,6 +324,63 @@ def loglik_logspace(K, pi, A, mu, tau, data):
     return lse(a)
 
 
+def loglik_and_scale(K, pi, A, mu, tau, data):
+    """the same recursion, also returning 1 + sum_t |log c_t| (c_t = P(y_t | y_0..y_{t-1}), the terms a scaled
+    implementation adds up): the conditioning-aware scale for comparing two log-likelihoods"""
+    def lse(xs):
+        m = max(xs)
+        if m == NEG_INF:
+            return NEG_INF
+        return m + math.log(math.fsum(math.exp(v - m) for v in xs))
+
+    lp, la, lb = log_tables(K, pi, A, mu, tau, data)
+    a = [lp[j] + lb[0][j] for j in range(K)]
+    tot = lse(a)
+    scale = 1.0 + abs(tot)
+    for t in range(1, len(data)):
+        a = [lse([a[i] + la[i][j] for i in range(K)]) + lb[t][j] for j in range(K)]
+        nxt = lse(a)
+        if nxt == NEG_INF:
+            return NEG_INF, scale
+        scale += abs(nxt - tot)
+        tot = nxt
+    return tot, scale
+
+
+def mant(x):
+    """a finite double >= 0 as (m, e) with x == m * 2**e exactly"""
+    m, e = math.frexp(x)
+    return int(m * (1 << 53)), e - 53
+
+
+def brute_loglik(K, pi, A, B):
+    """log of the sum of P(path, y) over ALL K^T paths.  Every path product is formed exactly (integer mantissas,
+    summed exponents) and the products are added exactly; only the final logarithm rounds"""
+    T = len(B)
+    P = [mant(v) for v in pi]
+    AA = [[mant(v) for v in row] for row in A]
+    BB = [[mant(v) for v in row] for row in B]
+    acc = {}
+    for p in brute_paths(K, T):
+        m, e = P[p[0]]
+        mb, eb = BB[0][p[0]]
+        m, e = m * mb, e + eb
+        for t in range(1, T):
+            if m == 0:
+                break
+            ma, ea = AA[p[t - 1]][p[t]]
+            mb, eb = BB[t][p[t]]
+            m, e = m * ma * mb, e + ea + eb
+        if m:
+            acc[e] = acc.get(e, 0) + m
+    if not acc:
+        return NEG_INF
+    e0 = min(acc)
+    M = sum(m << (e - e0) for e, m in acc.items())
+    sh = max(M.bit_length() - 200, 0)
+    return math.log(M >> sh) + (sh + e0) * math.log(2.0)
+
+
 def runs_of(path):
     """maximal constant runs (state, start, stop) — itertools.groupby"""
     out, i = [], 0
@@ -399,9 +473,14 @@ def impl(case):
         return _remember(case, [errname(e)] * n_ops(case))
 
 
+FB_MODEL_T = 20  # trained models of traces up to this length also go through the exact (rational) forward-backward model (cost grows fast with T)
+
+
 def n_ops(case):
     if case["op"] == "dwell_seq":
         return len(case["steps"])
+    if case["op"] == "em":
+        return 2 if len(case["data"]) <= FB_MODEL_T else 1
     return 2 if case["op"] == "dwell" else 1
 
 
@@ -438,14 +517,19 @@ def _impl(case):
             occ.append(float(np.min(np.sum(gamma[:-1], axis=0))))
         # the same through the public constructor
         hm = pub.HiddenMarkovModel(data, case["K"], tol=case.get("tol", 0.0), max_iter=n, initial_guess=stub_hmm(classic(case)))
-        fm = hm._model
+        ret = public_params(hm)  # the trained model as the constructor hands it over
         path = hm.state_path(trace_of(case["data"])).data
-        return [json.dumps({
+        # ... and the trained model OBJECT as the starting point of one more Baum-Welch iteration (warm start)
+        warm = pub.HiddenMarkovModel(data, case["K"], tol=0.0, max_iter=1, initial_guess=hm)
+        wp = public_params(warm)
+        end = public_params(hm)  # the same object once more, after it has been used
+        out = json.dumps({
             "path": [int(s) for s in path], "ll": fl(lls), "pisum": fl(pisum), "rowdev": fl(rowdev), "occ": fl(occ),
-            "pub_ll": enc_float(hm.fit_info.log_likelihood), "pub_iter": int(hm.fit_info.n_iter), "pub_conv": bool(hm.fit_info.converged),
-            "pub_pi": fl(hm.initial_state_probability), "pub_A": [fl(r) for r in np.atleast_2d(hm.transition_matrix)],
-            "pub_mu": fl(hm.means), "pub_tau": fl(fm.tau),
-        })]
+            "pub_ll": end["ll"], "pub_iter": int(hm.fit_info.n_iter), "pub_conv": bool(hm.fit_info.converged),
+            "pub_pi": end["pi"], "pub_A": end["A"], "pub_mu": end["mu"], "pub_tau": end["tau"],
+            "ret": ret, "warm": wp, "warm_iter": int(warm.fit_info.n_iter),
+        })
+        return [out] * n_ops(case)
     if k == "dwell":
         path = [float("nan") if s is None else s for s in case["path"]]
         counts, ranges = dwelltime._dwellcounts_from_statepath(np.array(path), exclude_ambiguous_dwells=case["exclude"])
@@ -503,6 +587,12 @@ def square(case):
     return [list(A[i * K:(i + 1) * K]) for i in range(K)] if A and not isinstance(A[0], list) else A
 
 
+def params_usable(pi, A, mu, tau):
+    """trained parameters that still describe a Gaussian-emission HMM (no NaN/inf, no collapsed variance)"""
+    return (all(math.isfinite(v) and v >= 0 for v in pi + sum(A, []) + tau) and all(math.isfinite(v) for v in mu)
+            and min(tau) > 0)
+
+
 def ops(case):
     k = case["op"]
     if k == "vit":
@@ -517,13 +607,24 @@ def ops(case):
     if k == "em":
         ia = _impl_of(case)[0]
         if is_err(ia):
-            return [f"c16.init {case['K']} none"]
+            return [f"c16.init {case['K']} none"] * n_ops(case)
         d = json.loads(ia)
         K = case["K"]
         pi, A, mu, tau = unfl(d["pub_pi"]), [unfl(r) for r in d["pub_A"]], unfl(d["pub_mu"]), unfl(d["pub_tau"])
-        if not all(math.isfinite(v) and v >= 0 for v in pi + sum(A, []) + tau) or not all(math.isfinite(v) for v in mu) or min(tau) <= 0:
-            return [f"c16.init {K} none"]  # degenerate training result (dropped, counted)
-        return [vit_op(K, pi, A, mu, tau, case["data"], d["path"])]
+        if not params_usable(pi, A, mu, tau):
+            return [f"c16.init {K} none"] * n_ops(case)  # degenerate training result (dropped, counted)
+        out = [vit_op(K, pi, A, mu, tau, case["data"], d["path"])]
+        if n_ops(case) == 2:
+            # the trained model's parameters through the exact forward-backward model: prod c_t is the sum over all paths
+            # (theorem likelihood_exact), fit_info.log_likelihood has to be its logarithm
+            lb = [[gauss_logpdf(x, mu[j], tau[j]) for j in range(K)] for x in case["data"]]
+            if all(max(r) > -600.0 for r in lb):
+                B = [[math.exp(v) for v in r] for r in lb]
+                out.append(f"c16.fb {K} {enc_list(pi, enc_rat)} {enc_listlist(A, enc_rat)} {enc_listlist(B, enc_rat)} "
+                           f"{enc_list(case['data'], enc_rat)}")
+            else:
+                out.append(f"c16.init {K} none")
+        return out
     if k == "dwell":
         p = enc_list(case["path"], lambda s: "nan" if s is None else str(int(s)))
         return [f"c16.dwell {p} {enc_bool(case['exclude'])}", f"c16.dwellc {p} {enc_bool(case['exclude'])}"]
@@ -605,6 +706,23 @@ def fb_agree(case, ia, ma):
     return True
 
 
+def em_ll_agree(ia, ma):
+    """fit_info.log_likelihood of the trained model against log prod c_t of the exact model run on the trained parameters"""
+    if is_err(ia) or is_err(ma):
+        return ia == ma
+    ll = dec_float(json.loads(ia)["pub_ll"])
+    if ma == "degenerate":
+        return not math.isfinite(ll)
+    toks = ma.split(" ")
+    if len(toks) != 7:
+        return False
+    mc = dec_ratlist(toks[0])
+    if not all(v > 0 for v in mc):
+        return False
+    logs = [math.log(v) for v in mc]
+    return fclose(ll, math.fsum(logs), 1.0 + sum(abs(v) for v in logs))
+
+
 def agree(case, i, ia, ma):
     k = case["op"]
     if k == "vit":
@@ -612,7 +730,7 @@ def agree(case, i, ia, ma):
     if k == "em":
         if ma == "ok":  # degenerate training result: nothing to compare
             return True
-        return vit_agree(ia, ma)
+        return vit_agree(ia, ma) if i == 0 else em_ll_agree(ia, ma)
     if k == "fb":
         return fb_agree(case, ia, ma)
     return ia == ma
@@ -736,7 +854,54 @@ def oracle_em(case, d):
     lb_best = max(max(gauss_logpdf(xv, mu[j], tau[j]) for j in range(K)) for xv in case["data"])
     if not math.isfinite(lb_best):
         return None
+    # the log-likelihood a trained model reports is the exact one of the parameters it reports: right after the constructor
+    # returned, and again after the object has been used (state_path, initial guess of another training)
+    ctor = f"HiddenMarkovModel(data, {K}, tol={tol}, max_iter={n}, initial_guess=...)"
+    end = {"ll": d["pub_ll"], "pi": d["pub_pi"], "A": d["pub_A"], "mu": d["pub_mu"], "tau": d["pub_tau"]}
+    views = [(f"{ctor} as returned", d["ret"])]
+    if end != d["ret"]:
+        views.append((f"{ctor}, read again after state_path() and after serving as initial_guess of another model", end))
+    for what, pr in views:
+        bad = oracle_reported_ll(K, pr, case["data"], what)
+        if bad:
+            return bad
+    # one more Baum-Welch iteration started from the trained model object: again exact, normalised, and not below
+    w = d["warm"]
+    wpi, wA, wmu, wtau, wll = unfl(w["pi"]), [unfl(r) for r in w["A"]], unfl(w["mu"]), unfl(w["tau"]), dec_float(w["ll"])
+    if d["warm_iter"] == 1 and math.isfinite(wll) and params_usable(wpi, wA, wmu, wtau) and max(wtau) <= 1e12:
+        if abs(sum(wpi) - 1.0) > TOL or any(abs(sum(r) - 1.0) > TOL for r in wA):
+            return f"update-normalised: one more iteration from the trained model gives pi sum {sum(wpi)!r}, row sums {[sum(r) for r in wA]}"
+        bad = oracle_reported_ll(K, w, case["data"], f"HiddenMarkovModel(data, {K}, tol=0, max_iter=1, initial_guess=<the trained model>)")
+        if bad:
+            return bad
+        if wll < pub_ll - TOL * max(1.0, abs(pub_ll)):
+            return (f"em-monotone: the trained model reports log-likelihood {pub_ll!r}; one more Baum-Welch iteration started "
+                    f"from that model object reports {wll!r}")
     return oracle_vit(K, pi, A, mu, tau, case["data"], d["path"])
+
+
+def oracle_reported_ll(K, pr, data, what):
+    """`pr` = what a model object reports about itself (log-likelihood, pi, A, means, 1/variances): the reported
+    log-likelihood has to be the logarithm of the sum over all state paths of P(path, data) under the reported parameters"""
+    T = len(data)
+    pi, A, mu, tau, ll = unfl(pr["pi"]), [unfl(r) for r in pr["A"]], unfl(pr["mu"]), unfl(pr["tau"]), dec_float(pr["ll"])
+    if not params_usable(pi, A, mu, tau) or max(tau) > 1e12:
+        return None
+    lb = [[gauss_logpdf(x, mu[j], tau[j]) for j in range(K)] for x in data]
+    if not all(max(r) > -600.0 for r in lb):
+        return None  # underflow territory (outside, see TRUSTED)
+    ref, scale = loglik_and_scale(K, pi, A, mu, tau, data)
+    how = "an independent log-space forward recursion"
+    if K ** T <= BRUTE_LIMIT:
+        ref = brute_loglik(K, pi, A, [[math.exp(v) for v in r] for r in lb])
+        how = f"the sum over all {K ** T} paths"
+    if ref == NEG_INF:
+        return None
+    if not math.isfinite(ll) or abs(ll - ref) > TOL * scale:
+        return (f"likelihood-exact: {what} reports log-likelihood {ll!r}, but under the parameters it reports "
+                f"(initial_state_probability {pi}, transition_matrix {A}, means {mu}, variances {[1.0 / v for v in tau]}) "
+                f"{how} gives log-likelihood {ref!r}")
+    return None
 
 
 def oracle_dwell(path, exclude, ranges, counts):
@@ -957,6 +1122,16 @@ def simulate(rng, m, T, noise=1.0):
     return out
 
 
+def ambiguous_start(rng, m, data):
+    """boundary bias for the initial-state posterior (the new initial distribution is the posterior of the FIRST sample): in
+    about a third of the traces the first observation sits between two neighbouring state means, so that posterior stays
+    mixed instead of collapsing onto one state"""
+    if m["K"] >= 2 and rng.chance(0.35):
+        j = rng.randint(0, m["K"] - 2)
+        w = rng.choice([0.5, 0.5, rng.uniform(0.3, 0.7)])
+        data[0] = (1.0 - w) * m["mu"][j] + w * m["mu"][j + 1]
+
+
 def emission_ok(m, data):
     """margin from underflow: some state explains every observation with log-density > -600"""
     return all(max(gauss_logpdf(x, m["mu"][j], m["tau"][j]) for j in range(m["K"])) > -600.0 for x in data)
@@ -1102,6 +1277,10 @@ def cases(tier, rng):
             for T in range(1, Tmax + 1):
                 yield dict(m, stream="small-scope", op="vit", data=full[:T], subseed=mi)
                 yield dict(m, stream="small-scope", op="fb", data=full[:T], subseed=mi)
+                if T >= 2:
+                    # training stopped after 1..3 iterations (nothing has converged, the posteriors are still mixed): what the
+                    # trained model reports goes through the sum over ALL K^T paths and the exact model
+                    yield dict(m, stream="small-scope", op="em", data=full[:T], iters=1 + (mi + K + T) % 3, tol=0.0, subseed=mi)
 
     # every label sequence over 3 labels
     Lmax = 7 if quick else 9
@@ -1147,6 +1326,23 @@ def cases(tier, rng):
         yield dict(m, stream="random", op="fb", data=data, subseed=i)
         yield dict(m, stream="random", op="vit", data=data, subseed=i)
 
+    # ---- seeded random: short and medium traces, Baum-Welch stopped early or by a loose tolerance, states that overlap
+    N = 40 if quick else 400
+    r = rng.fork("c16-em-medium")
+    for i in range(N):
+        sub = r.fork(i)
+        K = sub.choice([2, 2, 3, 3, 4])
+        truth = rnd_model(sub, K, zeros=False, sticky=sub.chance(0.6))
+        T = sub.choice([3, 5, 7, 12, sub.randint(8, Tm), Tm])
+        data = simulate(sub, truth, T, noise=sub.choice([0.5, 1.0, 1.5]))
+        guess = rnd_model(sub, K, zeros=sub.chance(0.2), sticky=sub.chance(0.5))
+        guess["mu"] = sorted(truth["mu"][j] + sub.uniform(-0.5, 0.5) for j in range(K))
+        guess["tau"] = [truth["tau"][j] * sub.loguniform(0.3, 2.0) for j in range(K)]
+        ambiguous_start(sub, guess, data)
+        if not emission_ok(guess, data):
+            continue
+        yield dict(guess, stream="random", op="em", data=data, iters=sub.choice([1, 1, 2, 3, 5]), tol=sub.choice([0.0, 0.0, 1e-3, 0.5]), subseed=i)
+
     # ---- seeded random: long traces, Baum-Welch
     N = 20 if quick else 200
     r = rng.fork("c16-long")
@@ -1160,6 +1356,7 @@ def cases(tier, rng):
         guess = rnd_model(sub, K, zeros=False, sticky=sub.chance(0.5))
         guess["mu"] = [truth["mu"][j] + sub.uniform(-1.0, 1.0) for j in range(K)]
         guess["tau"] = [sub.loguniform(0.3, 3.0) for _ in range(K)]
+        ambiguous_start(sub.fork("start"), guess, data)
         if not emission_ok(guess, data):
             continue
         yield dict(guess, stream="random-long", op="em", data=data, iters=sub.choice([1, 2, 3, 5, 8]), tol=sub.choice([0.0, 0.0, 1e-3, 0.5, 5.0]), subseed=i)
@@ -1183,6 +1380,7 @@ def cases(tier, rng):
 def extra_coverage(results):
     kinds, errs, Ks, Ts = {}, {}, {}, {"1": 0, "2-7": 0, "8-64": 0, "65-5000": 0}
     zero_models = ties = degenerate = em_dropped = brute = 0
+    trained_checked = trained_mixed = trained_brute = trained_lean = 0
     seq_calls = seq_same_window_other_data = seq_same_trace_again = 0
     for r in results:
         c = r["case"]
@@ -1211,6 +1409,14 @@ def extra_coverage(results):
                 ties += 1
         if k == "fb" and r["model"][0] == "degenerate":
             degenerate += 1
+        if k == "em" and not is_err(a):
+            pr = json.loads(a)["ret"]
+            pi, tau = unfl(pr["pi"]), unfl(pr["tau"])
+            if params_usable(pi, [unfl(x) for x in pr["A"]], unfl(pr["mu"]), tau) and max(tau) <= 1e12 and r["clause"] is None:
+                trained_checked += 1
+                trained_mixed += max(pi) < 0.999
+                trained_brute += c["K"] ** len(c["data"]) <= BRUTE_LIMIT
+                trained_lean += len(r["model"]) == 2 and r["model"][1] not in ("ok", "degenerate")
         if k == "em" and (r["model"][0] == "ok" or (not is_err(a) and not all(math.isfinite(v) for v in unfl(json.loads(a)["ll"])))):
             em_dropped += 1
     return {
@@ -1218,6 +1424,10 @@ def extra_coverage(results):
         "models_with_zero_probabilities": zero_models, "cases_checked_against_all_paths_brute_force": brute,
         "decoded_path_differs_from_model_path_but_scores_agree": ties, "forward_backward_degenerate": degenerate,
         "em_runs_dropped_as_degenerate": em_dropped,
+        "trained_models_with_usable_parameters": trained_checked,
+        "trained_models_whose_initial_distribution_is_still_mixed": trained_mixed,
+        "trained_models_checked_against_all_paths_brute_force": trained_brute,
+        "trained_models_checked_against_the_exact_lean_model": trained_lean,
         "calls_in_sequences_on_one_model_object": seq_calls,
         "sequence_calls_with_the_time_window_of_an_earlier_call_but_other_data": seq_same_window_other_data,
         "sequence_calls_repeating_an_earlier_trace": seq_same_trace_again, "exhaustive": False,
